@@ -101,14 +101,7 @@ func h1OneRun(env *Env, c *H1Cfg, st *h1State, runIdx int) {
 	settings := envsettings.Settings{Log: envsettings.Log{FilePath: os.DevNull}}
 
 	ctx, cancel := context.WithCancel(context.Background())
-	doCancel := func() {
-		if !g.Cancelled {
-			g.Cancelled = true
-			g.CancelNs, g.CancelSeq = env.Sim.Now(), env.Sim.Step()
-			env.Sim.Log("cancel", 0, 0, "")
-		}
-		cancel()
-	}
+	doCancel := func() { atomicCancel(env, &g.Cancelled, &g.CancelNs, &g.CancelSeq, cancel) }
 	if runIdx == 0 {
 		switch {
 		case c.CancelAtNs < 0:
@@ -264,6 +257,8 @@ func h1OneRun(env *Env, c *H1Cfg, st *h1State, runIdx int) {
 	if c.MaxDurationNs > int64(time.Minute) {
 		drain = 21 * time.Second
 	}
+	// injected stalls may hold a finishing goroutine for up to their budget: wait that out before judging leaks
+	drain += time.Duration(env.SimCfg.MaxStalls) * time.Duration(env.SimCfg.StallMaxMs+1) * time.Millisecond
 	time.Sleep(drain)
 	g.LateProgress = countProgress(rec, nLogs)
 	g.LeftoverAfter = leftoverF1(env.PreIDs)
